@@ -12,7 +12,9 @@ Definition e_text (t : text) : val := elist eN t.
 (* payload: (num_alternatives ((alt name) ...) ((order mult) ...) nic st rst)
    nic, st : () for None, ((n ...)) for a list;  rst : () for None, ((table ...)) for a list of
    relative truncators, each given as the table  n |-> int(ceil(n * t)),  n = 0 .. max len(order) *)
-Definition e_cat_inst (c : cat_inst) : val :=
+(* the last field (the padded ballot of every source order, in source order) is not compared by the
+   harness; it is used for its statistics (which orders collapse) and recorded in replay files *)
+Definition e_cat_inst (per_order : list ballot) (c : cat_inst) : val :=
   VL [ elist e_tuple2 (ci_preferences c);
        elist (epair e_tuple2 eN) (ci_multiplicity c);
        eN (ci_num_voters c);
@@ -20,7 +22,8 @@ Definition e_cat_inst (c : cat_inst) : val :=
        eN (ci_num_categories c);
        elist (epair e_text e_text) (ci_categories_name c);
        eN (ci_num_alternatives c);
-       elist (epair eN e_text) (ci_alternatives_name c) ].
+       elist (epair eN e_text) (ci_alternatives_name c);
+       elist e_tuple2 per_order ].
 
 Definition op_from_ordinal (v : val) : val :=
   let src := {| os_num_alternatives := dN (dnth 0 v);
@@ -29,7 +32,7 @@ Definition op_from_ordinal (v : val) : val :=
   let nic := doption (dlist dN) (dnth 3 v) in
   let st := doption (dlist dN) (dnth 4 v) in
   let rst := doption (dlist (dlist dN)) (dnth 5 v) in
-  eresult e_cat_inst (from_ordinal src nic st rst).
+  eresult (e_cat_inst (fo_ballots nic st rst (os_multiplicity src))) (from_ordinal src nic st rst).
 
 (* payload: (reset prefs ((ballot mult) ...)) -> (prefs mult num_voters num_unique_preferences)
    (factorise_instance followed by recompute_cardinality_param) *)
